@@ -185,5 +185,5 @@ pub fn gen_grazing(rng: &mut Rng, n: usize, out: &mut Vec<String>) {
 pub fn gen_all(rng: &mut Rng, tier: Tier, out: &mut Vec<String>) {
     gen(rng, tier, out);
     gen_grazing(rng, if tier == Tier::Quick { 600 } else { 20_000 }, out);
-    gen_needles(rng, if tier == Tier::Quick { 4000 } else { 100_000 }, out);
+    gen_needles(rng, if tier == Tier::Quick { 16_000 } else { 200_000 }, out);
 }
